@@ -45,6 +45,8 @@ func timeLayoutLit(ext string) string {
 		"time.RFC3339": "2006-01-02T15:04:05Z07:00", "time.RFC3339Nano": "2006-01-02T15:04:05.999999999Z07:00", "time.Kitchen": "3:04PM",
 		"time.Stamp": "Jan _2 15:04:05", "time.StampMilli": "Jan _2 15:04:05.000", "time.StampMicro": "Jan _2 15:04:05.000000", "time.StampNano": "Jan _2 15:04:05.000000000",
 		"time.DateTime": "2006-01-02 15:04:05", "time.DateOnly": "2006-01-02", "time.TimeOnly": "15:04:05",
+		// layout constants of other standard packages are Go expressions too
+		"http.TimeFormat": "Mon, 02 Jan 2006 15:04:05 GMT",
 	}
 	if v, ok := std[ext]; ok {
 		return strconv.Quote(v)
